@@ -135,8 +135,24 @@ pub fn judge_with<A: Attr>(rep: &mut Report, p: &[[f32; 3]; 3], a: &[[f32; MAXC]
             let tol_z = if large { tol_z_strict + pos_slack * gz_len + 1.2e-7 * extent * zabs } else { tol_z_strict };
             let err_z = (f.pos[2] as f64 - ze).abs();
             rep.worst(if large { "depth_err/tol(large extent, drift model)" } else { "depth_err/tol" }, err_z / tol_z, 1.0, String::new);
-            if large && err_z > tol_z_strict && err_z <= tol_z {
-                rep.count("large_extent.depth_errors_within_the_F9_drift_model");
+            // Beyond 128 px the stepped edges drift (known finding F9): a value
+            // error beyond the strict tolerance is attributed to that drift if
+            // the first-order model explains it, or if first order does not
+            // apply — the centre lies within the drift bound of an edge (it may
+            // even lie outside: the fragment exists only because of the drift)
+            // or the triangle is thinner than four drift bounds, so that 1/w
+            // changes by O(1) over the distance the edge has moved. Such errors
+            // carry their own signature (known finding F9-frag); anything else
+            // keeps the strict one.
+            let drift_regime = large && (alt_min < 4.0 * pos_slack || inside_by < pos_slack);
+            if large && err_z > tol_z_strict && (err_z <= tol_z || drift_regime) {
+                rep.count("large_extent.depth_errors_attributed_to_F9_drift");
+                rep.violation(
+                    "raster.value_drift_large_extent",
+                    format!("fragment at ({},{}) has depth {} but the vertex plane gives {ze} (strict tol {tol_z_strict:.3e}; extent {extent:.0} px, drift bound {pos_slack:.3} px, centre {inside_by:.4} px inside, min altitude {alt_min:.3} px)", centre.0, centre.1, f.pos[2]),
+                    cj::<A>(p, a),
+                );
+                return;
             }
             if !(err_z <= tol_z) {
                 rep.violation(
@@ -161,8 +177,14 @@ pub fn judge_with<A: Attr>(rep: &mut Report, p: &[[f32; 3]; 3], a: &[[f32; MAXC]
                 let a_in_max = av.iter().fold(0.0f64, |m, x| m.max(x.abs()));
                 let tol = if large { tol_strict + pos_slack * g + 1.2e-7 * extent * (a_in_max + ae.abs() * zabs) / ze.abs() } else { tol_strict };
                 let err = (f.var[c] as f64 - ae).abs();
-                if large && err > tol_strict && err <= tol {
-                    rep.count("large_extent.attribute_errors_within_the_F9_drift_model");
+                if large && err > tol_strict && (err <= tol || drift_regime) {
+                    rep.count("large_extent.attribute_errors_attributed_to_F9_drift");
+                    rep.violation(
+                        "raster.value_drift_large_extent",
+                        format!("fragment at ({},{}) comp {c}: attribute {} but the perspective-correct plane value is {ae} (strict tol {tol_strict:.3e}; extent {extent:.0} px, drift bound {pos_slack:.3} px, centre {inside_by:.4} px inside, min altitude {alt_min:.3} px)", centre.0, centre.1, f.var[c]),
+                        cj::<A>(p, a),
+                    );
+                    return;
                 }
                 if err <= tol {
                     rep.worst(if is_color::<A>() { "attr_err/tol(colour types)" } else { "attr_err/tol" }, err / tol, 1.0, || format!("{} {p:?} a={:?} centre {centre:?} got {} exp {ae} tol {tol:.3e} = 0.005*{:.3e} + 1e-5*{:.3e} + 0.001*{g:.3e}", A::NAME, [&a[0][..A::N], &a[1][..A::N], &a[2][..A::N]], f.var[c], arange[c], amax[c]));
@@ -300,6 +322,25 @@ pub fn run(cfg: &Cfg, rep: &mut Report) {
         let mut r2 = Report::new();
         judge::<Angle>(&mut r2, &p, &a);
         rep.pin("F22.angle_affine", if r2.n_violations() == 0 { Ok(()) } else { Err(r2.violations.values().next().map(|v| v.firsts[0].detail.clone()).unwrap_or_default()) });
+    }
+
+    {
+        // F9-frag (open): fragment values in the drift band of a thin triangle
+        // at large extent. 16 px wide, 1174 px tall, altitude 0.07 px; the
+        // fragment at (1303.5,1136.5) exists only because the edge has drifted
+        // 0.02 px and carries −1.97e-5 where the plane gives 1.9e-6
+        let f = f32::from_bits;
+        let p = [[f(0x44a18c3b), f(0x43a50a02), f(0x3decb1f1)], [f(0x44a13082), f(0x42ff7337), f(0x3e9f2d40)], [f(0x44a337f5), f(0x44a2b39d), f(0x3e06cd71)]];
+        let a = [[0.0, 0.0, f(0x34c9bb69), 0., 0.], [0.0, -0.0, f(0x35a10e0e), 0., 0.], [0.0, 0.0, f(0x34c6150d), 0., 0.]];
+        let mut r2 = Report::new();
+        judge_with::<Vec3>(&mut r2, &p, &a, 6e-8 * 2048.0 * 2048.0, true);
+        let hit = r2.violations.get("raster.value_drift_large_extent").map(|v| v.firsts[0].detail.clone());
+        let other = r2.violations.iter().find(|(k, _)| k.as_str() != "raster.value_drift_large_extent").map(|(k, v)| format!("{k}: {}", v.firsts[0].detail));
+        rep.pin("F9.frag_value_drift_thin_triangle", match (hit, other) {
+            (_, Some(o)) => Err(o),
+            (Some(h), None) => Err(h),
+            (None, None) => Ok(()),
+        });
     }
 
     let n = cfg.n(700_000, 70_000_000);
